@@ -338,13 +338,13 @@ class CylindricalSurfaceHistogram(TransformedHistogramMixin, HistogramND):
         The radius of the surface. Useful for plotting
     """
 
-    default_axis_names = ["rho", "phi", "z"]
+    default_axis_names = ["phi", "z"]
     default_init_values = {"radius": 1}
     source_ndim = 3
 
     @classmethod
     def _transform_correct_dimension(cls, value):
-        result = np.ndarray((*value.shape[-1], 2))
+        result = np.ndarray((*value.shape[:-1], 2))
         x, y, z = value.T
         result[..., 0] = np.arctan2(y, x) % (2 * np.pi)  # phi
         result[..., 1] = z
